@@ -123,6 +123,11 @@ type Interp struct {
 	AllocBound  int
 	WorkBound   int // >0: bound on back edges executed between two metering calls
 	work        int
+	allocFatal  bool    // verifAllocFatal(): allocation events end the path as an unrecoverable crash
+	maxTerms    []*Term // terms a counterexample model should make large (sizes of unbounded allocations)
+	workOn      bool // verifWorkReset() was called on this path
+	loopHint    int  // +1: the true side of the branch being decided stays in its loop, -1: the false side
+	stays       map[*ssa.BasicBlock][2]bool
 	WorkMax     int
 	AllocEventIsPanic bool
 	MapOrderReverse   bool
@@ -134,6 +139,13 @@ type Interp struct {
 	lastClock      *Term
 	lastCallee     *ssa.Function
 	facts          []factEnt
+	dom            map[string]domain
+	entangled      map[string]bool
+	DomSplit       int
+	domTrail       []domTrailEnt
+	soleMemo       map[*Term]soleInfo
+	NoDomains      bool
+	DomForced      int
 	model          map[string]ModelValue
 	evalMemo       map[*Term]*Term
 	allVars        []*Term
@@ -397,6 +409,20 @@ func (in *Interp) assume(c *Term) {
 	in.pc = append(in.pc, c)
 	in.Solver.Assert(c)
 	in.learn(c, true)
+	if !in.NoDomains {
+		in.domRestrict(c)
+		if in.soleVar(c).kind == 2 {
+			// the constraint ties several variables together: their byte
+			// domains are no longer exact
+			vars, ufs := map[string]*Term{}, map[string]*Term{}
+			c.collect(map[*Term]bool{}, vars, ufs)
+			for name, v := range vars {
+				if smallVar(v) {
+					in.entangled[name] = true
+				}
+			}
+		}
+	}
 	if in.model != nil {
 		if v, ok := in.evalBool(c); !ok || !v {
 			in.setModel(nil)
@@ -462,6 +488,11 @@ func (in *Interp) decide(cond *Term) bool {
 	if v, ok := in.known(cond); ok {
 		return v
 	}
+	if v, forced := in.domForced(cond); forced {
+		in.DomForced++
+		in.learn(cond, v)
+		return v
+	}
 	if in.spec > 0 {
 		if v, ok := in.evalBool(cond); ok {
 			other := cond
@@ -510,7 +541,19 @@ func (in *Interp) decide(cond *Term) bool {
 			sib := append(append([]int{}, in.decisions...), dd|site<<16)
 			in.newSibs = append(in.newSibs, Sib{Prefix: sib, Model: m})
 		}
-		if v, ok := in.evalBool(cond); ok {
+		if sv, tD, fD, okD := in.domSplit(cond); okD && !in.NoDomains && !in.entangled[sv.Name] && !tD.empty() && !fD.empty() {
+			// the condition speaks about one byte whose domain is exact (no
+			// other constraint mentions the byte): both sides are feasible
+			in.DomSplit++
+			d = 1
+			if in.loopHint < 0 {
+				d = 0
+			}
+			addSib(1-d, nil)
+			if v, ok := in.evalBool(cond); !ok || v != (d == 1) {
+				in.setModel(nil)
+			}
+		} else if v, ok := in.evalBool(cond); ok {
 			// the witness model satisfies side v: only the other side needs a query
 			other := cond
 			if v {
@@ -525,7 +568,15 @@ func (in *Interp) decide(cond *Term) bool {
 				d = 1
 			}
 			if r != Unsat {
-				addSib(1-d, m)
+				if (in.loopHint > 0 && d == 0) || (in.loopHint < 0 && d == 1) {
+					// both sides feasible: follow the side that stays in the loop
+					// first (a runaway loop is then found by one path)
+					addSib(d, in.model)
+					d = 1 - d
+					in.setModel(m)
+				} else {
+					addSib(1-d, m)
+				}
 			}
 		} else {
 			rT, mT := in.checkModel(cond)
@@ -540,6 +591,10 @@ func (in *Interp) decide(cond *Term) bool {
 				in.H.noteInconclusive("feasibility unknown at " + in.where() + ": " + in.Solver.LastErr)
 			}
 			switch {
+			case rT != Unsat && rF != Unsat && in.loopHint < 0:
+				d = 0
+				addSib(1, mT)
+				in.setModel(mF)
 			case rT != Unsat && rF != Unsat:
 				d = 1
 				addSib(0, mF)
@@ -722,7 +777,7 @@ func (in *Interp) callSSA(fn *ssa.Function, args []V, env []V, caller *Frame) V 
 		panic(&pathEnd{Kind: "unwind", Msg: "recursion depth > bound in " + name})
 	}
 	fi := in.info(fn)
-	if fi.meterTick && in.WorkBound > 0 {
+	if fi.meterTick && in.workOn {
 		// a metering call with a non-zero amount ends the current stretch of
 		// unmetered work
 		zero := true
@@ -1031,11 +1086,26 @@ func (in *Interp) exec(fr *Frame, instr ssa.Instruction) cont {
 		in.store(in.get(fr, x.Addr).(Ptr), in.get(fr, x.Val))
 	case *ssa.If:
 		c := in.get(fr, x.Cond).(*Term)
+		if c.Op != OpConst {
+			// outcome already implied (syntactically or by a byte's domain)?
+			if v, ok := in.known(c); ok {
+				c = BoolT(v)
+			} else if v, forced := in.domForced(c); forced {
+				in.DomForced++
+				in.learn(c, v)
+				c = BoolT(v)
+			}
+		}
 		if c.Op != OpConst && in.tryMerge(fr, x, c) {
 			return kJump
 		}
 		succ := 1
-		if in.decide(c) {
+		if in.workOn && c.Op != OpConst {
+			in.loopHint = in.loopSide(fr.block)
+		}
+		dec := in.decide(c)
+		in.loopHint = 0
+		if dec {
 			succ = 0
 		}
 		in.jumpTo(fr, fr.block.Succs[succ])
@@ -1113,7 +1183,7 @@ func (in *Interp) exec(fr *Frame, instr ssa.Instruction) cont {
 }
 
 func (in *Interp) jumpTo(fr *Frame, to *ssa.BasicBlock) {
-	if in.WorkBound > 0 && to.Index <= fr.block.Index {
+	if in.workOn && to.Index <= fr.block.Index {
 		// back edge: one unit of work since the last metering call
 		in.work++
 		if in.work > in.WorkBound {
@@ -1202,4 +1272,46 @@ func debugf(format string, a ...interface{}) {
 	if os.Getenv("GOSYM_DEBUG") != "" {
 		fmt.Fprintf(os.Stderr, format+"\n", a...)
 	}
+}
+
+
+// loopSide tells which successor of a two-way branch can reach the branch
+// again (stays in a loop) when the other cannot: +1 Succs[0], -1 Succs[1], 0
+// otherwise.
+func (in *Interp) loopSide(b *ssa.BasicBlock) int {
+	if len(b.Succs) != 2 {
+		return 0
+	}
+	if in.stays == nil {
+		in.stays = map[*ssa.BasicBlock][2]bool{}
+	}
+	st, ok := in.stays[b]
+	if !ok {
+		reach := func(from *ssa.BasicBlock) bool {
+			seen := map[*ssa.BasicBlock]bool{}
+			stack := []*ssa.BasicBlock{from}
+			for len(stack) > 0 {
+				x := stack[len(stack)-1]
+				stack = stack[:len(stack)-1]
+				if x == b {
+					return true
+				}
+				if seen[x] {
+					continue
+				}
+				seen[x] = true
+				stack = append(stack, x.Succs...)
+			}
+			return false
+		}
+		st = [2]bool{reach(b.Succs[0]), reach(b.Succs[1])}
+		in.stays[b] = st
+	}
+	switch {
+	case st[0] && !st[1]:
+		return 1
+	case st[1] && !st[0]:
+		return -1
+	}
+	return 0
 }
